@@ -21,7 +21,7 @@ checks = {
    text="Drawn Start/Stop/cancel sequences (sequential against a reference state machine, and concurrent from 2-3 goroutines) under the seeded scheduler; blocked-forever detection at the horizon names the call and the lock, Stop's duration is measured on the simulated clock, and a leak oracle lists every goroutine of the system still alive after Stop.",
    technique="deterministic simulation: seeded scheduler, reference state machine, blocked-forever and goroutine-leak oracles"),
  "C04": dict(level="exploration", ref="DESIGN.md 3 C04",
-   text="Seeded search over reply / timeout / asker-death / Close / PipeTo orders on the simulated clock: timeouts are compared with the exact simulated deadline, every waiter of every future must return the same outcome at the same instant, leaked registrations are read through an accessor at quiescence, and the same workload runs in a -race build in which the scheduler is invisible to the race detector, so unsynchronised accesses in the future/ask path are reported whenever a schedule executes both.",
+   text="Seeded search over reply / timeout / asker-death / Close / PipeTo orders on the simulated clock: timeouts are compared with the exact simulated deadline, every waiter of every future must return the same outcome at the same instant, leaked registrations are read through an accessor at quiescence, and the same workload runs in a -race build in which the scheduler is invisible to the race detector, so unsynchronised accesses in the future/ask path are reported whenever a schedule executes both. One variant injects goroutine stalls (20 us - 300 ms of simulated time at scheduling points) and time-outs down to 1 us, so that timers fire in the middle of the code that armed them; it keeps only the timing-independent rules.",
    technique="deterministic simulation: seeded scheduler + fake clock, outcome oracle per future, -race variant as data-race oracle"),
  "C06": dict(level="exploration", ref="DESIGN.md 3 C06",
    text="Seeded search over tree shapes, kill targets, repeated/concurrent/poison kills, kills racing spawns and watch registrations; event-order and exactly-once oracles over the complete recorded history at quiescence, path release, stale subscriptions and jobs checked after termination.",
